@@ -2,8 +2,11 @@ package term
 
 // Linear reasoning over exact (non-wrapping) sums, used by the comparison
 // constructors to decide conditions such as (x+10) < (x+y+18) without a
-// solver call.  A sum is "exact" when every Add/Sub/Mul node on its spine
-// carries an interval that was derived without wrap-around.
+// solver call, and to normalise comparisons between sums that share terms,
+// constants or a common factor (clock arithmetic: t0 + d1*10^6 < t0 + d2*10^6
+// becomes d1 < d2).  A sum is "exact" when every Add/Sub/Mul node on its spine
+// carries an interval that was derived without wrap-around.  All coefficient
+// arithmetic is overflow-checked; any doubt makes the analysis give up.
 
 type linTerm struct {
 	t *T
@@ -11,28 +14,56 @@ type linTerm struct {
 }
 
 type lin struct {
-	ts []linTerm
-	k  int64
-	ok bool
+	ts     []linTerm
+	k      int64
+	ok     bool
+	visits int
 }
 
-const linLimit = uint64(1) << 56
+const linLimit = uint64(1) << 62
+
+func mulOK(a, b int64) (int64, bool) {
+	if a == 0 || b == 0 {
+		return 0, true
+	}
+	r := a * b
+	if r/b != a || (a == -1 && b == -1<<63) || (b == -1 && a == -1<<63) {
+		return 0, false
+	}
+	return r, true
+}
+
+func addOK(a, b int64) (int64, bool) {
+	r := a + b
+	if (a > 0 && b > 0 && r < 0) || (a < 0 && b < 0 && r >= 0) {
+		return 0, false
+	}
+	return r, true
+}
 
 func (l *lin) add(t *T, c int64) {
+	l.visits++
 	for i := range l.ts {
 		if l.ts[i].t == t || (l.ts[i].t.H == t.H && Equal(l.ts[i].t, t)) {
-			l.ts[i].c += c
+			s, ok := addOK(l.ts[i].c, c)
+			if !ok {
+				l.ok = false
+				return
+			}
+			l.ts[i].c = s
 			return
 		}
 	}
 	l.ts = append(l.ts, linTerm{t, c})
 }
 
-func (l *lin) walk(t *T, c int64, depth int) {
+// walk adds c*t to the sum.  top: t may be a wrapping subtraction of two exact sums below 2^62,
+// whose two's-complement value read as a signed number is the integer difference.
+func (l *lin) walk(t *T, c int64, depth int, top bool) {
 	if !l.ok {
 		return
 	}
-	if depth > 24 || c > 1<<20 || c < -(1<<20) {
+	if depth > 24 || c > 1<<40 || c < -(1<<40) {
 		l.ok = false
 		return
 	}
@@ -42,32 +73,61 @@ func (l *lin) walk(t *T, c int64, depth int) {
 			l.ok = false
 			return
 		}
-		l.k += c * int64(t.C)
+		p, ok := mulOK(c, int64(t.C))
+		if !ok {
+			l.ok = false
+			return
+		}
+		s, ok := addOK(l.k, p)
+		if !ok {
+			l.ok = false
+			return
+		}
+		l.k = s
+		l.visits++
 		return
 	case OAdd:
 		if t.rng {
-			l.walk(t.A[0], c, depth+1)
-			l.walk(t.A[1], c, depth+1)
+			l.walk(t.A[0], c, depth+1, false)
+			l.walk(t.A[1], c, depth+1, false)
 			return
 		}
 	case OSub:
 		if t.rng {
-			l.walk(t.A[0], c, depth+1)
-			l.walk(t.A[1], -c, depth+1)
+			l.walk(t.A[0], c, depth+1, false)
+			l.walk(t.A[1], -c, depth+1, false)
 			return
 		}
+		if top {
+			_, h0 := t.A[0].Range()
+			_, h1 := t.A[1].Range()
+			if h0 < linLimit && h1 < linLimit {
+				l.walk(t.A[0], c, depth+1, false)
+				l.walk(t.A[1], -c, depth+1, false)
+				return
+			}
+		}
 	case OMul:
-		if t.rng && t.A[1].IsConst() && t.A[1].C < 1<<16 {
-			l.walk(t.A[0], c*int64(t.A[1].C), depth+1)
+		if t.rng && t.A[1].IsConst() && t.A[1].C < 1<<32 {
+			p, ok := mulOK(c, int64(t.A[1].C))
+			if !ok {
+				l.ok = false
+				return
+			}
+			l.walk(t.A[0], p, depth+1, false)
 			return
 		}
 	case OShl:
 		if t.rng && t.A[1].IsConst() && t.A[1].C < 16 {
-			l.walk(t.A[0], c<<t.A[1].C, depth+1)
+			l.walk(t.A[0], c<<t.A[1].C, depth+1, false)
 			return
 		}
 	case OZExt:
-		l.walk(t.A[0], c, depth+1)
+		l.walk(t.A[0], c, depth+1, false)
+		return
+	}
+	if top && t.Op == OSub {
+		l.ok = false
 		return
 	}
 	_, hi := t.Range()
@@ -78,29 +138,131 @@ func (l *lin) walk(t *T, c int64, depth int) {
 	l.add(t, c)
 }
 
-// diffBounds returns bounds on (b - a) over the integers, if both are exact sums.
-func diffBounds(a, b *T) (lo, hi int64, ok bool) {
-	l := lin{ok: true}
-	l.walk(b, 1, 0)
-	l.walk(a, -1, 0)
-	if !l.ok {
-		return 0, 0, false
-	}
+func (l *lin) bounds() (lo, hi int64, ok bool) {
 	lo, hi = l.k, l.k
 	for _, x := range l.ts {
 		if x.c == 0 {
 			continue
 		}
 		tl, th := x.t.Range()
-		if x.c > 0 {
-			lo += x.c * int64(tl)
-			hi += x.c * int64(th)
-		} else {
-			lo += x.c * int64(th)
-			hi += x.c * int64(tl)
+		a, ok1 := mulOK(x.c, int64(tl))
+		b, ok2 := mulOK(x.c, int64(th))
+		if !ok1 || !ok2 {
+			return 0, 0, false
+		}
+		if x.c < 0 {
+			a, b = b, a
+		}
+		var o1, o2 bool
+		lo, o1 = addOK(lo, a)
+		hi, o2 = addOK(hi, b)
+		if !o1 || !o2 {
+			return 0, 0, false
 		}
 	}
 	return lo, hi, true
+}
+
+// diff returns the linear form of (b - a) over the integers.  signed: a and b are read as signed
+// numbers (each an exact sum, or a wrapping difference of two exact sums).
+func diff(a, b *T, signed bool) (*lin, bool) {
+	l := &lin{ok: true}
+	l.walk(b, 1, 0, signed)
+	l.walk(a, -1, 0, signed)
+	if !l.ok {
+		return nil, false
+	}
+	return l, true
+}
+
+// diffBounds returns bounds on (b - a) over the integers, if both are exact sums.
+func diffBounds(a, b *T) (lo, hi int64, ok bool) {
+	l, ok := diff(a, b, false)
+	if !ok {
+		return 0, 0, false
+	}
+	return l.bounds()
+}
+
+func gcd64(a, b int64) int64 {
+	if a < 0 {
+		a = -a
+	}
+	if b < 0 {
+		b = -b
+	}
+	for b != 0 {
+		a, b = b, a%b
+	}
+	return a
+}
+
+// split rebuilds 0 < l as lhs < rhs between two non-negative exact sums of width w, dividing by the
+// common factor.  improved reports whether the result is simpler than the comparison it came from.
+func (l *lin) split(w uint8) (lhs, rhs *T, improved, ok bool) {
+	var g int64
+	n := 0
+	for _, x := range l.ts {
+		if x.c != 0 {
+			g = gcd64(g, x.c)
+			n++
+		}
+	}
+	if n == 0 {
+		return nil, nil, false, false
+	}
+	k := l.k
+	if k != 0 {
+		n++
+		if k%g != 0 {
+			// 0 < g*S + k  <=>  0 < S + ceil(k/g) ... keep it simple: no division
+			g = 1
+		}
+	}
+	if g == 0 {
+		g = 1
+	}
+	lhs, rhs = Const(w, 0), Const(w, 0)
+	for _, x := range l.ts {
+		if x.c == 0 {
+			continue
+		}
+		t := x.t
+		if t.W > w {
+			return nil, nil, false, false
+		}
+		if t.W < w {
+			if t.W == 0 {
+				return nil, nil, false, false
+			}
+			t = ZExt(t, w)
+		}
+		c := x.c / g
+		neg := c < 0
+		if neg {
+			c = -c
+		}
+		if c != 1 {
+			t = Mul(t, Const(w, uint64(c)))
+		}
+		if neg {
+			lhs = Add(lhs, t)
+		} else {
+			rhs = Add(rhs, t)
+		}
+	}
+	k /= g
+	if k < 0 {
+		lhs = Add(lhs, Const(w, uint64(-k)))
+	} else if k > 0 {
+		rhs = Add(rhs, Const(w, uint64(k)))
+	}
+	_, lh := lhs.Range()
+	_, rh := rhs.Range()
+	if lh >= linLimit || rh >= linLimit {
+		return nil, nil, false, false
+	}
+	return lhs, rhs, n < l.visits || g > 1, true
 }
 
 // linUlt tries to decide a < b (unsigned). Both must be exact sums.
@@ -119,6 +281,46 @@ func linUlt(a, b *T) (res bool, decided bool) {
 		return false, true
 	}
 	return false, false
+}
+
+// linCmp decides or normalises a < b.  It returns nil when it has nothing to offer.
+func linCmp(a, b *T, signed bool) *T {
+	if a.W != b.W || a.W == 0 {
+		return nil
+	}
+	l, ok := diff(a, b, signed)
+	if !ok {
+		return nil
+	}
+	lo, hi, ok := l.bounds()
+	if !ok {
+		return nil
+	}
+	if lo >= 1 {
+		return True
+	}
+	if hi <= 0 {
+		return False
+	}
+	if signed {
+		// both sides must be small enough for the signed reading to be the integer value
+		for _, side := range []*T{a, b} {
+			s := &lin{ok: true}
+			s.walk(side, 1, 0, true)
+			if !s.ok {
+				return nil
+			}
+			slo, shi, ok := s.bounds()
+			if !ok || slo <= -(1<<62) || shi >= 1<<62 {
+				return nil
+			}
+		}
+	}
+	lhs, rhs, improved, ok := l.split(a.W)
+	if !ok || (!improved && !signed) {
+		return nil
+	}
+	return ultRaw(lhs, rhs)
 }
 
 // linEq tries to decide a == b.
